@@ -255,25 +255,29 @@ Definition suffix_all (s : string) (m : rmap) : res rmap := mapM (suffix_one s) 
 
 (* NamespaceTransformerPlugin.Transform: resources are rewritten one after the other and each is
    re-checked against the map as it is at that moment *)
-Definition ns_one (ns : string) (r : mres) : mres :=
+(* [unset] = the plugin's unsetOnly option: the namespace filter then only fills in a blank namespace
+   (filtersutil.SetEntryIfEmpty); the id-conflict test is made either way *)
+Definition ns_one (ns : string) (unset : bool) (r : mres) : mres :=
   let r1 := store_prev r in
-  if g_cs (i_gvk (cur r1)) then r1 else set_ns ns r1.
+  if g_cs (i_gvk (cur r1)) then r1
+  else if unset && negb (String.eqb (i_ns (cur r1)) "") then r1
+  else set_ns ns r1.
 
-Fixpoint ns_go (ns : string) (done todo : rmap) : res rmap :=
+Fixpoint ns_go (ns : string) (unset : bool) (done todo : rmap) : res rmap :=
   match todo with
   | [] => Ok done
   | r :: t =>
-      if m_empty r then ns_go ns (done ++ [r]) t
+      if m_empty r then ns_go ns unset (done ++ [r]) t
       else
-        let r' := ns_one ns r in
+        let r' := ns_one ns unset r in
         let now := done ++ r' :: t in
         if Nat.eqb (List.length (filter (fun x => id_equals (cur r') (cur x)) now)) 1
-        then ns_go ns (done ++ [r']) t
+        then ns_go ns unset (done ++ [r']) t
         else Err
   end.
 
-Definition ns_all (ns : string) (m : rmap) : res rmap :=
-  if String.eqb ns "" then Ok m else ns_go ns [] m.
+Definition ns_all (ns : string) (unset : bool) (m : rmap) : res rmap :=
+  if String.eqb ns "" then Ok m else ns_go ns unset [] m.
 
 (* HashTransformerPlugin.Transform; the content hash is an oracle table tag -> hash
    (a missing entry stands for an error of Resource.Hash) *)
@@ -456,7 +460,7 @@ Inductive op :=
 | OClear
 | OPrefix (p : string)
 | OSuffix (s : string)
-| ONamespace (ns : string)
+| ONamespace (ns : string) (unset_only : bool)
 | OHash (h : list (string * string))
 | OSortLegacy
 | OSmPatch (scope : list (string * string * bool)) (sel : list resid) (pname pkind : string) (allowN allowK del : bool)
@@ -478,7 +482,7 @@ Definition step (o : op) (m : rmap) : res rmap :=
   | OClear => Ok []
   | OPrefix p => prefix_all p m
   | OSuffix s => suffix_all s m
-  | ONamespace ns => ns_all ns m
+  | ONamespace ns u => ns_all ns u m
   | OHash h => hash_all h m
   | OSortLegacy => sort_legacy m
   | OSmPatch sc sel pn pk an ak del => sm_patch sc sel pn pk an ak del m
